@@ -18,6 +18,7 @@ from collections import Counter
 ROOT = os.path.dirname(os.path.dirname(os.path.abspath(__file__)))
 PY = sys.executable
 NPROC = int(os.environ.get("VERIF_NPROC", "16"))
+MAX_VERIFIED = 6
 
 
 def load_profile(pid: str):
@@ -159,6 +160,14 @@ def run_check(pid: str, tier: str, seed: int) -> int:
         path = os.path.join(rdir, digest([c, v["world"], v["history"], v.get("params")]) + ".json")
         with open(path, "w") as f:
             json.dump(rec, f, indent=1, default=str)
+        n_verified = len(replays)
+        if n_verified >= MAX_VERIFIED:
+            # enough classes were re-executed in fresh processes; the remaining ones are
+            # reported from the exploration's own (deterministic) execution
+            print(f"VIOLATION property={pid} replay={path}")
+            print(f"  class: {c}  (not re-executed: {MAX_VERIFIED} classes already confirmed)")
+            replays.append(path)
+            continue
         codes = fresh_replay(path, hashseed=(v.get("params") or {}).get("hashseed"))
         if all(code == 1 for code, _ in codes):
             print(f"VIOLATION property={pid} replay={path}")
